@@ -18,6 +18,7 @@ def run(model, rep, tier):
     r2_ascii_safe_write(ctx, rep)
     r3_counters(ctx, rep)
     r4_recorded_once(ctx, rep)
+    r5_own_class_and_name(ctx, rep)
     rep.units['cfg'] = ctx.cfg_stats
 
 
@@ -345,3 +346,64 @@ def r4_recorded_once(ctx, rep, R='C17.R4'):
     rep.check(oki and okw, R, '--xml: wrapper installed around the chosen formatter; reports written '
               'after the run', 'the XML wrapper is not installed / the reports are not written under '
               'options.xmlOutput', key='install', func=fc.qualname, where=ctx.where(fc, fc.node))
+
+
+def r5_own_class_and_name(ctx, rep, R='C17.R5'):
+    rep.rule(R, 'a unittest test case is recorded under its own class and name: the class name is '
+             '<module>.<class> of the test object and the test name is the test id with exactly '
+             'that prefix removed (an injective mapping; cutting at the last dot would merge '
+             'generated names such as test_ratio_0.5 and test_scale_1.5)')
+    from .common import single_assignments
+    m = ctx.model
+    fi = m.func('formatter.parse_unittest')
+    env = single_assignments(fi.node)
+    rets = [n for n in ast.walk(fi.node) if isinstance(n, ast.Return) and
+            isinstance(n.value, ast.Tuple) and len(n.value.elts) == 3 and
+            not all(isinstance(e, ast.Constant) for e in n.value.elts)]
+    if len(rets) != 1:
+        rep.undecide(R, 'parse_unittest', 'expected one non-trivial return of a triple')
+        return
+
+    def val(e):
+        for _ in range(3):
+            if isinstance(e, ast.Name) and e.id in env:
+                e = env[e.id]
+        return e
+    suite, name, cls = [val(e) for e in rets[0].value.elts]
+    idv = [k for k, v in env.items() if isinstance(v, ast.Call) and isinstance(v.func, ast.Attribute)
+           and v.func.attr == 'id']
+    okc = isinstance(cls, ast.Call) and call_name(cls) == 'get_test_class_name' and \
+        norm(suite) == norm(cls)
+    rep.check(okc, R, 'class name and suite are get_test_class_name(test)',
+              'the recorded class is %s' % norm(cls), key='own:class', func=fi.qualname,
+              where=ctx.where(fi, rets[0]))
+    verdict, why = None, ''
+    clsnames = {k for k, v in env.items() if isinstance(v, ast.Call) and
+                call_name(v) == 'get_test_class_name'}
+    if isinstance(name, ast.Subscript) and isinstance(name.value, ast.Name) and \
+            name.value.id in idv and isinstance(name.slice, ast.Slice) and name.slice.upper is None:
+        lo = val(name.slice.lower) if name.slice.lower is not None else None
+        t = norm(lo) if lo is not None else ''
+        if any(t in ('len(%s) + 1' % c, '1 + len(%s)' % c, "len(%s + '.')" % c) for c in clsnames):
+            verdict = True
+        else:
+            verdict, why = False, 'the id is cut at %s, not at the end of the class prefix' % t
+    elif isinstance(name, ast.Call) and isinstance(name.func, ast.Attribute) and \
+            name.func.attr == 'removeprefix' and name.args and \
+            any(norm(name.args[0]) == "%s + '.'" % c for c in clsnames):
+        verdict = True
+    elif any(isinstance(x, ast.Attribute) and x.attr in ('rpartition', 'rsplit', 'split', 'partition')
+             for x in ast.walk(name)):
+        verdict, why = False, ('the test name is a dot-separated component of the id (%s): distinct '
+                               'tests whose names contain dots collapse onto one name' % norm(name))
+    if verdict is None:
+        rep.undecide(R, 'parse_unittest: test name', 'the test name is %s' % norm(name))
+        return
+    rep.check(verdict, R, 'test name = id with the "<class name>." prefix removed', why,
+              key='own:name', func=fi.qualname, where=ctx.where(fi, rets[0]))
+    gc_ = m.func('formatter.get_test_class_name')
+    rr = [n for n in ast.walk(gc_.node) if isinstance(n, ast.Return)]
+    okg = len(rr) == 1 and '__module__' in norm(rr[0].value) and '__class__.__name__' in norm(rr[0].value)
+    rep.check(okg, R, 'get_test_class_name = <test.__module__>.<test.__class__.__name__>',
+              'the class name is computed as %s' % (norm(rr[0].value) if rr else '?'), key='own:getclass',
+              func=gc_.qualname, where=ctx.where(gc_, gc_.node))
